@@ -62,7 +62,8 @@ KNOWN_DEFECT_zero_height_block = False  # repaired in /repo (fix: 6efafad)
 KNOWN_DEFECT_target_mass_needs_aligned_column = False  # recorded in known_findings.jsonl
 
 SOLIDS = ("fuel", "clad", "duct")
-NUC = {"fuel": "U235", "clad": "FE", "duct": "FE", "grid plate": "FE", "reflector": "FE", "slug": "FE"}
+NUC = {"fuel": "U235", "clad": "FE", "duct": "FE", "grid plate": "FE", "reflector": "FE", "slug": "FE",
+       "control": "B10", "poison": "B10", "shield": "FE"}
 FLUIDS = ("coolant", "intercoolant")            # every other component of the hand-built blocks is a solid
 HLO, HHI = 10.0, 400.0
 GLO, GHI = 0.5, 2.0
@@ -88,6 +89,10 @@ def _pins(fuelMat="UZr", cladMat="HT9", mult=127.0, od=0.76):
             components.Circle("clad", cladMat, Tinput=25.0, Thot=450, od=od + 0.04, id=od + 0.01, mult=mult)]
 
 
+def _rods(name, mat, mult=127.0, od=0.76):
+    return components.Circle(name, mat, Tinput=25.0, Thot=450, od=od, id=0.0, mult=mult)
+
+
 # block kinds; all but "plate" are fuel blocks whose target (chosen by the changer) is the fuel
 KINDS = {
     "pin": lambda: None,                                         # _build.mk_block: fuel, clad (127 pins), duct, gap
@@ -107,9 +112,33 @@ KINDS = {
     "plenum": lambda: [_pins()[1], _duct(), _gap()],
     "aclp": lambda: [components.Circle("slug", "HT9", Tinput=25.0, Thot=450, od=0.76, id=0.0, mult=127.0),
                      _pins()[1], _duct(), _gap()],
+    # blocks WITHOUT a user designation that hold components of TWO different kinds of the documented preference list
+    # (fuel, then control, poison, shield, slug: "follow the most neutronically important component"): an absorber bundle
+    # plus a few steel shield rods, shield pins plus slugs, poison pins plus slugs.  The few extra rods (mult 6) are
+    # linked to nothing in a pin block (other multiplicity)
+    "ctrlshield": lambda: [_rods("control", "B4C"), _pins()[1], _rods("shield", "HT9", 6.0, 1.2), _duct(), _gap()],
+    "shieldctrl": lambda: [_rods("shield", "HT9", 6.0, 1.2), _rods("control", "B4C"), _pins()[1], _duct(), _gap()],
+    "shieldslug": lambda: [_rods("slug", "HT9", 6.0, 1.2), _rods("shield", "HT9"), _pins()[1], _duct(), _gap()],
+    "poisonslug": lambda: [_rods("poison", "B4C"), _pins()[1], _rods("slug", "HT9", 6.0, 1.2), _duct(), _gap()],
+    # a fuel block that also holds shield rods: the fuel drives it, whether the changer is told to set the targets of
+    # fuel blocks itself (setFuel=True) or to determine them like in any other block (setFuel=False)
+    "fuelshield": lambda: _pins() + [_rods("shield", "HT9", 6.0, 1.2), _duct(), _gap()],
 }
-BLOCKTYPE = {"plate": "grid plate", "holed": "reflector", "plenum": "plenum", "aclp": "aclp"}    # default: "fuel"
-AUTOTARGET = {"plate": "grid plate", "holed": "reflector", "plenum": "clad", "aclp": "clad"}     # default: "fuel"
+BLOCKTYPE = {"plate": "grid plate", "holed": "reflector", "plenum": "plenum", "aclp": "aclp", "ctrlshield": "control",
+             "shieldctrl": "control", "shieldslug": "shield", "poisonslug": "control"}    # default: "fuel"
+# documented order of preference for the component that drives a block nobody designated a target for
+PREFERENCE = ("fuel", "control", "poison", "shield", "slug")
+AUTOTARGET = {"plate": "grid plate", "holed": "reflector", "plenum": "clad", "aclp": "clad"}     # default: by PREFERENCE
+
+
+def auto_target(kind):
+    """Name of the component the changer has to pick itself for a block of this kind: the cladding of a PLENUM / ACLP
+    block, the only solid of a grid-plate / reflector block, else the first kind of PREFERENCE present in the block."""
+    if kind in AUTOTARGET:
+        return AUTOTARGET[kind]
+    comps = KINDS[kind]()
+    names = ["fuel", "clad", "duct"] if comps is None else [c.name for c in comps]
+    return [p for p in PREFERENCE if p in names][0]
 
 
 def mk_kind(kind):
@@ -141,7 +170,7 @@ def expected_targets(n, targets=None, struct=None):
     for k in range(n):
         t = "auto" if targets is None else targets[k]
         if t in ("auto", "fuel"):
-            t = AUTOTARGET.get(struct[k], "fuel") if struct is not None else "fuel"
+            t = auto_target(struct[k]) if struct is not None else "fuel"
         out.append(t)
     return out
 
@@ -230,10 +259,10 @@ def snapshot(a):
                 h=[b.getHeight() for b in a], top=a[-1].p.ztop, total=a.getTotalHeight())
 
 
-def expand(changer, a, comps, factors):
+def expand(changer, a, comps, factors, setFuel=True):
     """Run the real prescribed expansion; returns True iff the documented ArithmeticError (negative height) came."""
     try:
-        changer.performPrescribedAxialExpansion(a, comps, factors, setFuel=True)
+        changer.performPrescribedAxialExpansion(a, comps, factors, setFuel=setFuel)
     except ZeroDivisionError:
         raise
     except ArithmeticError:
@@ -334,7 +363,10 @@ def check_masses(ctx, a, changer, before, g, tag, n, canary=False):
                        "user-defined Custom material; a reflector block made of one HoledHexagon / fuel pins that are "
                        "HexHoledCircles (subclasses of the shapes below/above them: linked to nothing by the documented "
                        "identical-type rule); blocks flagged PLENUM / ACLP with the default target (cladding) or a "
-                       "user-designated one (duct, slug); targets 'auto' = chosen by the changer",
+                       "user-designated one (duct, slug); targets 'auto' = chosen by the changer; undesignated blocks "
+                       "holding components of two kinds of the documented preference list fuel > control > poison > "
+                       "shield > slug (absorber bundle + shield rods, shield pins + slugs, poison + slugs, fuel + "
+                       "shield rods with setFuel on/off): the first kind present has to drive the block",
          stubs=STUBS, qtimeout_ms=30000,
          instances={"quick": [dict(n=2, targets=("fuel", "fuel")), dict(n=3, targets=("fuel", "fuel", "fuel")),
                               dict(n=2, targets=("clad", "fuel")), dict(n=2, targets=("fuel", "clad")),
@@ -343,8 +375,13 @@ def check_masses(ctx, a, changer, before, g, tag, n, canary=False):
                               dict(n=2, targets=("auto",) * 2, struct=("noclad", "cclad")),
                               dict(n=2, targets=("auto",) * 2, struct=("pin", "cfuel")),
                               dict(n=2, targets=("auto",) * 2, struct=("pin", "holed")),
-                              dict(n=2, targets=("duct",) * 2, struct=("aclp", "plenum"))],
-                    "thorough": [dict(n=3, targets=("clad", "clad", "fuel")), dict(n=3, targets=("clad", "fuel", "clad")),
+                              dict(n=2, targets=("duct",) * 2, struct=("aclp", "plenum")),
+                              dict(n=2, targets=("auto",) * 2, struct=("pin", "ctrlshield"))],
+                    "thorough": [dict(n=2, targets=("auto",) * 2, struct=("shieldslug", "shieldctrl")),
+                                 dict(n=2, targets=("auto",) * 2, struct=("poisonslug", "ctrlshield")),
+                                 dict(n=2, targets=("auto",) * 2, struct=("pin", "fuelshield"), setFuel=False),
+                                 dict(n=2, targets=("auto",) * 2, struct=("fuelshield", "pin")),
+                                 dict(n=3, targets=("clad", "clad", "fuel")), dict(n=3, targets=("clad", "fuel", "clad")),
                                  dict(n=3, targets=("auto",) * 3, struct=("holed", "pin", "holedpin")),
                                  dict(n=2, targets=("auto",) * 2, struct=("plenum", "aclp")),
                                  dict(n=2, targets=("fuel", "duct"), struct=("pin", "plenum")),
@@ -355,14 +392,14 @@ def check_masses(ctx, a, changer, before, g, tag, n, canary=False):
                                  dict(n=3, targets=("auto",) * 3, struct=("pin", "pin61", "pin")),
                                  dict(n=3, targets=("auto",) * 3, struct=("cfuel", "noclad", "cclad")),
                                  dict(n=2, targets=("auto",) * 2, struct=("pin61", "pin"))]})
-def prescribed_expansion_keeps_height_contiguity_and_target_mass(ctx, n, targets, struct=None):
+def prescribed_expansion_keeps_height_contiguity_and_target_mass(ctx, n, targets, struct=None, setFuel=True):
     a, hs = build(ctx, n, targets, struct=struct)
     tnames = expected_targets(n, targets, struct)
     comps = solids(a)
     g = {c: ctx.real("g%d_%s" % (k, vn(c)), GLO, GHI) for k, b in enumerate(a[:-1]) for c in bsolids(b)}
     before = snapshot(a)
     changer = AxialExpansionChanger(detailedAxialExpansion=True)
-    raised = expand(changer, a, comps, [g[c] for c in comps])
+    raised = expand(changer, a, comps, [g[c] for c in comps], setFuel=setFuel)
     # one aligned target column: every target rests on the target of the block below or, with nothing linked below it
     # (pins on a grid plate, other pin multiplicity), on the top of the block below
     aligned = len(set(targets)) == 1
@@ -492,6 +529,79 @@ def second_expansion_keeps_the_invariants(ctx, n, targets, struct=None, listed=N
             ctx.check_close("second round: block %d: new height = growth prescribed for its target in this step (1 if "
                             "not listed) x height before the step" % k, b.getHeight(), g2[t] * mid["h"][k],
                             scale=mid["total"])
+
+
+# Candidate genuine defect (reported, not repaired): ExpansionData._setExpansionTarget only ever ADDS to the register of
+# target components.  Designating another target for a block on an existing ExpansionData (the public
+# determineTargetComponent(b, flag), meant for targets "determined on the fly") leaves the old target registered as well:
+# the block then has two target components, its top follows whichever comes LAST in the block, not the designated one.
+# Plain floats: 2 pin blocks of 10 cm + dummy, blueprint designation 'clad'; setAssembly; determineTargetComponent(b,
+# Flags.FUEL) for both blocks (b.p.axialExpTargetComponent reads 'fuel'); fuel x1.1 -> mesh stays [10, 20, 30] although
+# the fuel tops are 11 and 22, and the fuel mass drops to 0.909 of its value.
+# While the flag is set, the obligations on the new target (exactly one target, boundary follows it, its mass is
+# conserved) are not stated; set it to False to see the violation.
+KNOWN_DEFECT_redesignation_keeps_old_target = True
+
+FLAG_OF = {"fuel": Flags.FUEL, "clad": Flags.CLAD, "duct": Flags.DUCT}
+
+
+@harness("C12", bounds="n=2 pin blocks + dummy, heights, growth factors and densities symbolic as above; the blocks carry a "
+                       "designation `old`; after setAssembly the target of every block is re-designated on the fly with the "
+                       "public ExpansionData.determineTargetComponent(b, flag of `new`), then the factors are set and the "
+                       "assembly is expanded", stubs=STUBS, qtimeout_ms=30000,
+         instances={"quick": [dict(old="clad", new="fuel")],
+                    "thorough": [dict(old="fuel", new="clad"), dict(old="duct", new="fuel"), dict(old="fuel", new="fuel")]})
+def redesignated_target_drives_the_block(ctx, old, new, n=2):
+    a, hs = build(ctx, n, (old,) * n)
+    comps = solids(a)
+    g = {c: ctx.real("g%d_%s" % (k, vn(c)), GLO, GHI) for k, b in enumerate(a[:-1]) for c in bsolids(b)}
+    before = snapshot(a)
+    changer = AxialExpansionChanger(detailedAxialExpansion=True)
+    changer.setAssembly(a)
+    for k, b in enumerate(a[:-1]):
+        ctx.check("block %d: before the re-designation the target is the one designated on the block" % k,
+                  target_of(changer, b) is b.getComponentByName(old))
+        got = changer.expansionData.determineTargetComponent(b, FLAG_OF[new])
+        ctx.check("block %d: determineTargetComponent returns the component carrying the flag and stores its name on the "
+                  "block" % k, got is b.getComponentByName(new) and b.p.axialExpTargetComponent == new)
+    changer.expansionData.setExpansionFactors(comps, [g[c] for c in comps])
+    try:
+        changer.axiallyExpandAssembly()
+    except ZeroDivisionError:
+        raise
+    except ArithmeticError:
+        return
+    if not all_placed(ctx, a, "after"):
+        return
+    defect = KNOWN_DEFECT_redesignation_keeps_old_target and old != new
+    H = before["total"]
+    total = a.getTotalHeight()
+    if ctx.canary:
+        total = total + ITE(AND(hs[0] > 399, g[comps[0]] > 1.99), 1.0, 0.0)
+    if defect:
+        ctx.check_close("total assembly height unchanged", total, H, scale=H)
+        for k, b in enumerate(a):
+            if k > 0:
+                ctx.check_close("block %d bottom = top of the block below" % k, b.p.zbottom, a[k - 1].p.ztop, scale=H)
+            ctx.check("block %d has positive height" % k, b.getHeight() > 0)
+        return
+    ctx.check_close("total assembly height unchanged", total, H, scale=H)
+    ok = True
+    for k, b in enumerate(a[:-1]):
+        regd = [c.name for c in b if changer.expansionData.isTargetComponent(c)]
+        ctx.check("block %d: the re-designated component (%s) is the one and only target component" % (k, new),
+                  regd == [new])
+        ctx.check_close("block %d boundary moves with the re-designated target component" % k, b.p.ztop,
+                        b.getComponentByName(new).ztop, scale=H)
+        ok = ok and regd == [new]
+    if not ok:
+        return
+    check_geometry(ctx, a, changer, before, "after", n, (new,) * n, [new] * n)
+    check_masses(ctx, a, changer, before, g, "after", n)
+    for k, b in enumerate(a[:-1]):
+        t = b.getComponentByName(new)
+        ctx.check_close("block %d: new height = growth of the re-designated target x old height" % k, b.getHeight(),
+                        g[t] * hs[k], scale=H)
 
 
 # ---------------------------------------------------------------------------------------------------------------
